@@ -170,6 +170,8 @@ def gen_cases(rng, tier):
                               "T": _py("float", rng.uniform(100.0, 400.0)), "R_load": _py("float", rng.choice([50.0, 1e3])),
                               "sel": _py("str", opt), "i_dark": 10e-9, "Fn": rng.choice([0.0, 5.0])})
     rng.shuffle(cases)
+    # histories first: a violation that needs a sequence of calls is then reported on a case that reproduces it on its own (replay)
+    cases.sort(key=lambda c: c["kind"] != "history")
     return cases
 
 
